@@ -36,9 +36,13 @@ def _code_lines(path):
 
 root = os.path.dirname(asyncstdlib.__file__)
 hit = {}
+taken = set()
 for name in os.listdir(sys.argv[1]):
     for fn, lines in json.load(open(os.path.join(sys.argv[1], name))).items():
-        hit.setdefault(fn, set()).update(lines)
+        if fn == "__branches__":
+            taken.update(lines)
+        else:
+            hit.setdefault(fn, set()).update(lines)
 for fn in sorted(os.listdir(root)):
     if not fn.endswith(".py"):
         continue
@@ -49,3 +53,36 @@ for fn in sorted(os.listdir(root)):
     print(f"== {fn}: {len(total) - len(missing)}/{len(total)} code lines reached")
     for ln in missing:
         print(f"   {ln:4d}  {src[ln - 1].rstrip()[:110]}")
+
+
+def half_taken():
+    """Conditional jumps of which only one destination was ever taken (needs REACH_BRANCH=1 while running)."""
+    import dis
+    by_src = {}
+    for rec in taken:
+        fn, qual, first, src, dst = rec.rsplit("|", 4)
+        by_src.setdefault((fn, qual, int(first), int(src)), set()).add(int(dst))
+    print("== conditional jumps with a single destination observed")
+    for fn in sorted(os.listdir(root)):
+        if not fn.endswith(".py"):
+            continue
+        path = os.path.join(root, fn)
+        src_lines = open(path).read().split("\n")
+        stack = [compile(open(path).read(), path, "exec")]
+        while stack:
+            code = stack.pop()
+            stack.extend(c for c in code.co_consts if hasattr(c, "co_code"))
+            if not code.co_flags & 0x1:
+                continue
+            for ins in dis.get_instructions(code):
+                if "JUMP_IF" in ins.opname or ins.opname in ("FOR_ITER", "SEND", "END_ASYNC_FOR"):
+                    seen = by_src.get((fn, code.co_qualname, code.co_firstlineno, ins.offset), set())
+                    if len(seen) == 1 and ins.opname not in ("SEND",):
+                        line = ins.positions.lineno if ins.positions else None
+                        jumped = ins.argval in seen
+                        print(f"   {fn}:{line} {code.co_qualname} {ins.opname}: only the "
+                              f"{'jump' if jumped else 'fall-through'} was taken :: {src_lines[line - 1].strip()[:90] if line else ''}")
+
+
+if taken:
+    half_taken()
